@@ -37,7 +37,7 @@ CLAIMS = {
              text="Per concrete block layout (1..3 (4) entries, key length 1..2, value absent or 0..2 bytes) one query covers every non-NUL byte content incl. ':' and '=' and a symbolic lookup key: iteration order and pointers, operator[] first-entry semantics, find, length.",
              note="keys do not start with ':'", ref="4/C17"),
  "C18": dict(units="src/cpp/ports.cpp (Ports::collapsePath) via IR",
-             text="Per concrete component structure ('..' / 1- / 2-char names; exhaustive to 3 (4) components, sampled to 6 (8)) one query covers every name byte: result pointer inside the buffer, collapsed string equals the stack-based reference, nothing before the buffer written.",
+             text="Per concrete component structure ('..' / 1- / 2-char names; exhaustive to 3 components over three kinds and to 6 (7) components over {'..', 1-char name}) one query covers every name byte: result pointer inside the buffer, collapsed string equals the stack-based reference, nothing before the buffer written.",
              note="lookup by address and child search (apropos, operator[], path_search) over port tables are NOT claimed -- only the collapsePath clause", ref="4/C18"),
  "C19": dict(units="src/cpp/automations.cpp via IR, src/rtosc.c",
              text="Learn queue by one-step induction from every valid pre-state of 2..3 (5) slots: clearSlot(c) and handleMidi(symbolic plain controller) preserve the queue invariant, keep request order, bind exactly the first waiting slot, a bound controller drives exactly its slots. Output: for enumerated declared ranges/types, all pairs of slot values in [-2,3]: address, type, value inside [min,max], monotone, 0->min and 1->max at default gain/offset.",
